@@ -1297,10 +1297,156 @@ PREAMBLE2 = """(* GENERATED by tools/rs2coq2.py from the repository sources on e
    Whole functions of the crate translated to Gallina in state-passing style (see the header of tools/rs2coq2.py for the
    scheme). proofs/Gen2_equiv_*.v prove each equal to the hand-written model's function. *)
 From Coq Require Import NArith Bool List.
-From Hoot Require Import Base Chunk Body Url Request GenLib Gen.
+From Hoot Require Import Base Chunk Body Url Request Call Flow GenLib Gen.
 Open Scope N_scope.
 Open Scope bool_scope.
 """
+
+
+# --------------------------------------------------------------------------------------------------------------------
+# State-graph skeletons: the `proceed` functions of src/client/flow.rs decide the successor state from a handful of flags. Everything
+# else in them moves values between typestate wrappers (Flow::wrap, CallHolder variants), which has no counterpart in a model whose
+# typestate is a tag.  A skeleton keeps exactly the decision: the conditions (after replacing the accessor calls listed in `subst` by
+# flag parameters), which XxxResult variant each path returns, and which close reasons are added on the way.
+#   gen_next_<state> : flags -> option tag * list reason
+# Statements that neither branch, return nor add a close reason are skipped; an assignment to one of the flags is refused.
+SKELETONS = [
+    dict(coq="gen_next_send_request", impl=r"impl<B>\s+Flow<B,\s*SendRequest>", rust="proceed",
+         subst=[(r"self\.can_proceed\(\)", "can_proceed"), (r"self\.inner\.should_send_body", "should_send_body"),
+                (r"self\.inner\.await_100_continue", "await_100")],
+         params=["can_proceed", "should_send_body", "await_100"]),
+    dict(coq="gen_next_await_100", impl=r"impl<B>\s+Flow<B,\s*Await100>", rust="proceed",
+         subst=[(r"self\.inner\.should_send_body", "should_send_body")], params=["should_send_body"]),
+    dict(coq="gen_next_send_body", impl=r"impl<B>\s+Flow<B,\s*SendBody>", rust="proceed", default="TRecvResponse",
+         subst=[(r"self\.can_proceed\(\)", "can_proceed")], params=["can_proceed"]),
+    dict(coq="gen_next_recv_response", impl=r"impl<B>\s+Flow<B,\s*RecvResponse>", rust="proceed",
+         subst=[(r"self\.can_proceed\(\)", "can_proceed"), (r"call_body\.need_response_body\(\)", "need_body"),
+                (r"call_body\.is_close_delimited\(\)", "close_delimited"), (r"self\.inner\.is_redirect\(\)", "is_redirect")],
+         params=["can_proceed", "need_body", "close_delimited", "is_redirect"]),
+    dict(coq="gen_next_recv_body", impl=r"impl<B>\s+Flow<B,\s*RecvBody>", rust="proceed",
+         subst=[(r"self\.can_proceed\(\)", "can_proceed"), (r"self\.inner\.is_redirect\(\)", "is_redirect")],
+         params=["can_proceed", "is_redirect"]),
+]
+TAGS = {"Await100": "TAwait100", "SendBody": "TSendBody", "RecvResponse": "TRecvResponse", "RecvBody": "TRecvBody",
+        "Redirect": "TRedirect", "Cleanup": "TCleanup", "SendRequest": "TSendRequest", "Prepare": "TPrepare"}
+REASONS = ["Http10", "ClientConnectionClose", "ServerConnectionClose", "Not100Continue", "CloseDelimitedBody"]
+
+
+def find_fn_in_impl(text, impl_rx, name):
+    text = re.sub(r"//[^\n]*", lambda m: " " * len(m.group(0)), text)
+    m = re.search(impl_rx + r"\s*\{", text)
+    if not m:
+        raise Unsupported("impl block not found")
+    i = m.end() - 1
+    depth = 0
+    j = i
+    while True:
+        if text[j] == "{":
+            depth += 1
+        elif text[j] == "}":
+            depth -= 1
+            if depth == 0:
+                break
+        j += 1
+    from tools.rsparse import find_fn
+    return find_fn(text[i:j + 1], name)
+
+
+class Skel(object):
+    def __init__(self, cfg, tr):
+        self.cfg = cfg
+        self.tr = tr
+
+    def leaf(self, e, env, reasons):
+        k = e[0]
+        if k == "call" and e[1][0] == "path" and e[1][1] in (["Ok"], ["Some"]) and len(e[2]) == 1:
+            return self.leaf(e[2][0], env, reasons)
+        if k == "path" and e[1] == ["None"]:
+            return "(@None tag, %s)" % self.rs(reasons)
+        if k == "if" and e[3] is not None:
+            return "(if %s then %s else %s)" % (self.tr.pure(e[1], env), self.walk(e[2][1], e[2][2], env, reasons), self.walk(e[3][1], e[3][2], env, reasons))
+        if k == "block":
+            return self.walk(e[1], e[2], env, reasons)
+        if k == "return":
+            return self.leaf(e[1], env, reasons)
+        if k == "call" and e[1][0] == "path" and len(e[1][1]) >= 2 and e[1][1][-2].endswith("Result") and e[1][1][-1] in TAGS:
+            return "(Some %s, %s)" % (TAGS[e[1][1][-1]], self.rs(reasons))
+        if k == "call" and e[1] == ("path", ["Flow", "wrap"]) and self.cfg.get("default"):
+            return "(Some %s, %s)" % (self.cfg["default"], self.rs(reasons))
+        raise Unsupported("skeleton: unclassified result expression")
+
+    def rs(self, reasons):
+        return "[" + "; ".join(reasons) + "]"
+
+    def mentions_flag_assignment(self, st):
+        if st[0] == "assign":
+            p = st[1]
+            while p[0] == "unary":
+                p = p[2]
+            if p[0] == "path" and p[1][0] in self.cfg["params"]:
+                return True
+        return False
+
+    def walk(self, stmts, tail, env, reasons):
+        if not stmts:
+            if tail is None:
+                raise Unsupported("skeleton: a path that returns nothing")
+            return self.leaf(tail, env, reasons)
+        st, rest = stmts[0], stmts[1:]
+        if self.mentions_flag_assignment(st):
+            raise Unsupported("skeleton: a flag is assigned")
+        if st[0] == "let" and st[1][0] == "pbind":
+            try:
+                v = self.tr.pure(st[2], env)
+            except (Unsupported, Impure):
+                return self.walk(rest, tail, env, reasons)            # a value the decision does not depend on (or use of it fails below)
+            c = cn(st[1][1])
+            return "(let %s := %s in %s)" % (c, v, self.walk(rest, tail, self.tr.bind(env, st[1][1], B("val", c)), reasons))
+        if st[0] == "expr":
+            e = st[1]
+            if e[0] == "return":
+                return self.leaf(e[1], env, reasons)
+            if e[0] == "if":
+                c = self.tr.pure(e[1], env)
+                a = self.walk_block_then(e[2], rest, tail, env, reasons)
+                b = self.walk_block_then(e[3], rest, tail, env, reasons) if e[3] is not None else self.walk(rest, tail, env, reasons)
+                return "(if %s then %s else %s)" % (c, a, b)
+            if e[0] == "call" and e[1] == ("path", ["add_close_reason"]):
+                r = e[2][1]
+                if r[0] != "path" or r[1][-1] not in REASONS:
+                    raise Unsupported("skeleton: close reason")
+                return self.walk(rest, tail, env, reasons + [r[1][-1]])
+            if e[0] in ("match", "loop", "while", "for"):
+                raise Unsupported("skeleton: control flow other than if")
+        return self.walk(rest, tail, env, reasons)
+
+    def walk_block_then(self, blk, rest, tail, env, reasons):
+        """the block's statements, then (if the block does not return) what follows the if"""
+        if blk[2] is not None:
+            # a block with a value in statement position is the function's result only when nothing follows
+            if rest or tail is not None:
+                raise Unsupported("skeleton: if with a value in the middle of a function")
+            return self.walk(blk[1], blk[2], env, reasons)
+        # thread the reasons added inside the block through to the continuation by walking block ++ rest
+        return self.walk(list(blk[1]) + list(rest), tail, env, reasons)
+
+
+def translate_skeleton(text, cfg, consts):
+    sig, body = find_fn_in_impl(text, cfg["impl"], cfg["rust"])
+    for rx, rep in cfg["subst"]:
+        body, n = re.subn(rx, rep, body)
+        if n == 0:
+            raise Unsupported("expected source pattern not found: %s" % rx)
+    from tools.rsparse import tokenize
+    p = P(tokenize(body))
+    blk = p.block()
+    tr = Tr(dict(cfg, file="src/client/flow.rs"), consts, {})
+    tr.info = FnInfo(cfg["coq"], [], "plain")
+    env = {"__order__": []}
+    for f in cfg["params"]:
+        env = tr.bind(env, f, B("val", f))
+    code = Skel(cfg, tr).walk(blk[1], blk[2], env, [])
+    return "Definition %s %s : option tag * list reason :=\n  %s." % (cfg["coq"], " ".join("(%s : bool)" % f for f in cfg["params"]), code)
 
 
 BASELINE = os.path.join(os.path.dirname(os.path.abspath(__file__)), "gen2_baseline.json")
@@ -1341,6 +1487,23 @@ def _generate(repo, base, force):
                           "   tied to the current source by the correspondence check only *)\n%s\n" % (
                               cfg["file"], cfg["rust"], str(ex).replace("*)", "* )"), fb["code"]))
             known[(cfg.get("impl"), cfg["rust"])] = FnInfo(cfg["coq"], [tuple(p) for p in fb["params"]], fb["kind"], rust_ret=fb["rust_ret"])
+    flow_text = None
+    for cfg in SKELETONS:
+        try:
+            if cfg["coq"] in force:
+                raise Unsupported(force[cfg["coq"]])
+            flow_text = flow_text or open(os.path.join(repo, "src/client/flow.rs")).read()
+            code = translate_skeleton(flow_text, cfg, {})
+            chunks.append("(* src/client/flow.rs :: %s :: fn %s (decision skeleton) *)\n%s\n" % (cfg["impl"].split("Flow")[-1], cfg["rust"], code))
+            done.append(cfg["coq"])
+            newbase[cfg["coq"]] = {"code": code, "params": [], "kind": "skeleton", "rust_ret": "", "calls": []}
+        except (Unsupported, Impure, OSError, ValueError, KeyError, IndexError, AttributeError, TypeError, RecursionError) as ex:
+            failed[cfg["coq"]] = "%s: %s" % (type(ex).__name__, ex)
+            fb = base.get(cfg["coq"])
+            if fb is None:
+                raise
+            chunks.append("(* src/client/flow.rs :: fn %s -- NOT TRANSLATED (%s): the skeleton at the pinned commit stands in *)\n%s\n" % (
+                cfg["rust"], str(ex).replace("*)", "* )"), fb["code"]))
     return "\n".join(chunks), done, failed, newbase
 
 
@@ -1358,7 +1521,7 @@ def regenerate2(repo, out_path, write_baseline=False, force_all=None):
         base = json.load(open(BASELINE))
     force = {}
     if force_all:
-        force = dict((c["coq"], force_all) for c in FUNCS2)
+        force = dict((c["coq"], force_all) for c in FUNCS2 + SKELETONS)
     for _round in range(len(FUNCS2) + 2):
         text, done, failed, newbase = _generate(repo, base, force)
         more = dict((n, r) for n, r in failed.items() if n not in force)
